@@ -628,3 +628,44 @@ func GenNasty(g G) *Scenario {
 	b.ShuffleInputs()
 	return b.Sc
 }
+
+// GenUnderivable: a derivable skeleton with one link cut or one label
+// perturbed (the analysis decides afterwards whether it really is underivable).
+func GenUnderivable(g G, o GenFuncOpts) *Scenario {
+	sc := GenDerivable(g, o, true, true, 3, 3)
+	pal := Palette{Names: AllNames[:2], Subs: AllSubs, SubP: 50, NameP: 50}
+	cuts := g.Int(1, 2)
+	for k := 0; k < cuts; k++ {
+		switch g.Int(0, 5) {
+		case 0, 1: // drop an input
+			if n := len(sc.Inputs); n > 0 {
+				i := g.Int(0, n-1)
+				sc.Inputs = append(sc.Inputs[:i:i], sc.Inputs[i+1:]...)
+			}
+		case 2: // drop a converter
+			if n := len(sc.Convs); n > 0 {
+				i := g.Int(0, n-1)
+				sc.Convs = append(sc.Convs[:i:i], sc.Convs[i+1:]...)
+			}
+		case 3: // perturb the subtype of an input
+			if n := len(sc.Inputs); n > 0 {
+				i := g.Int(0, n-1)
+				sc.Inputs[i].L.Sub = Pick(g, []string{"s", "t", "u"})
+			}
+		case 4: // rename an input
+			if n := len(sc.Inputs); n > 0 {
+				i := g.Int(0, n-1)
+				if sc.Inputs[i].L.Named() {
+					sc.Inputs[i].L.Name = Pick(g, AllNames)
+				}
+			}
+		default: // give a target parameter a subtype nobody produces
+			if n := len(sc.Target.In); n > 0 && sc.Target.InForm != FormPos && !sc.Target.Built {
+				i := g.Int(0, n-1)
+				sc.Target.In[i].Sub = "u"
+			}
+		}
+	}
+	_ = pal
+	return sc
+}
